@@ -364,6 +364,7 @@ def canon(samples, state):
 
 
 LOGS = ("minisanity.txt",)
+_OPT_VI = {}
 
 
 def point_variants(kind, name, open_names, level):
@@ -475,9 +476,23 @@ def run_one(spec, in_process=False):
         # written; does not touch the file system)
         iters[str(int(state.nit))] = canon(samples, state)["hash"]
 
+    extra = {}
+    if in_process:
+        # several runs of the same configuration in one process: build the (state-less) OptimizeVI
+        # object once -- with exactly the arguments optimize_kl itself would pass -- so that its
+        # jitted functions are traced once; really killed runs and their restarts never take this path
+        key = json.dumps({k: v for k, v in spec["case"].items() if not k.startswith("_")}, sort_keys=True)
+        if key not in _OPT_VI:
+            import inspect
+            sig_kl = inspect.signature(jft.optimize_kl).parameters
+            sig_vi = inspect.signature(jft.OptimizeVI.__init__).parameters
+            args = {n: kw.get(n, sig_kl[n].default) for n in sig_vi
+                    if n in sig_kl and n not in ("self", "likelihood") and not n.startswith("_")}
+            _OPT_VI[key] = jft.OptimizeVI(lh, **args)
+        extra["_optimize_vi"] = _OPT_VI[key]
     tr.install()
     try:
-        samples, state = jft.optimize_kl(lh, pos0, odir=odir, resume=resume, callback=callback, **kw)
+        samples, state = jft.optimize_kl(lh, pos0, odir=odir, resume=resume, callback=callback, **extra, **kw)
         out = {"outcome": "ok", "final": canon(samples, state)}
     except BaseException as e:                                    # noqa: resume impossible etc.
         out = {"outcome": "raised", "error": type(e).__name__, "detail": str(e).replace(os.path.realpath(odir), "<odir>").replace(odir, "<odir>")[:200]}
